@@ -16,8 +16,31 @@ EVIDENCE = dict(
     explanation="finite domain enumerated completely")
 
 
+def tlaps_supplement(ctx):
+    """Unbounded arithmetic facts about the offset encoding, proved by TLAPS (supplementary; recorded only)."""
+    import os
+    import re
+    import shutil
+    import subprocess
+    import time
+    src = os.path.join(tlc.SPEC_DIR, "tlaps", "RVCtlProofs.tla")
+    dst = os.path.join(ctx.work, "RVCtlProofs.tla")
+    t0 = time.time()
+    try:
+        shutil.copy(src, dst)
+        p = subprocess.run(["tlapm", "RVCtlProofs.tla"], cwd=ctx.work, stdout=subprocess.PIPE, stderr=subprocess.STDOUT, text=True, timeout=300)
+        m = re.search(r"All (\d+) obligations? proved", p.stdout)
+        res = {"proved_all": bool(m), "obligations": int(m.group(1)) if m else 0, "note": "" if m else p.stdout[-300:]}
+    except Exception as e:
+        res = {"proved_all": False, "obligations": 0, "note": "not run: %r" % (e,)}
+    res["wall_s"] = round(time.time() - t0, 1)
+    res["claim"] = "supplementary: Bijection, Inverse, NonNegative, Injective, Monotone of the offset encoding over all integers"
+    ctx.cov["tlaps"] = res
+
+
 def run(ctx):
     path, spec = specdata.write(ctx)
+    tlaps_supplement(ctx)
     c09.mc(ctx, path, ("Encoding", "StrictInDomain"))
     events = ctl.enumerate_tables(spec, True, ctx.seed)
     groups, pats, members = {}, {}, []
